@@ -115,6 +115,12 @@ func checkC09(c *Ctx) {
 		}
 	}
 	for _, f := range a.sortedFindings() {
+		if f.bad && len(a.problems) > 0 {
+			// not everything relevant was followed: what looks wrong may be done by the code that was not followed
+			r.Undecide("C09 (exploration incomplete) %s %s: %s", f.rule, f.construct, f.msg)
+			r.OK(f.rule, f.construct, f.pos, "not decided: exploration incomplete")
+			continue
+		}
 		r.Check(!f.bad, f.rule, f.construct, f.pos, f.msg, f.msg)
 	}
 	for _, pr := range a.problems {
